@@ -15,10 +15,82 @@ RULE = (
     "set_max_parsing_depth with an integer literal in 1..=4096 on every path before parse_into. R2 each generated parse entry "
     "(<crate>::generated::veryl_parser::parse) is called only from that crate's Parser::parse. R3 Parser::parse hands the parser the "
     "newline-terminated copy of the input: the buffer parsed derives from the String that received push('\\n') under "
-    "!ends_with(\"\\n\"), not from the caller's `input`."
+    "!ends_with(\"\\n\"), not from the caller's `input`. R4 every panicking string slice (`&text[a..b]`) in hand-written code reachable from "
+    "Parser::parse takes its bounds only from searches, regex matches and lengths of text (char boundaries), never from a parameter or another "
+    "computed offset. R5 From<Location> for SourceSpan passes the scanner's start and len() through unchanged."
 )
 
 CRATES = ["veryl_parser", "veryl_migrator", "veryl_formatter", "veryl_analyzer", "veryl_emitter", "veryl", "veryl_ls.bin", "veryl_translator", "mdbook_veryl.bin", "veryl_tests"]
+
+
+def _unsafe_bounds(g, tree, SAFE, seen, depth):
+    """leaves of a slice-bound expression that are not char-boundary-safe offsets of a text"""
+    if depth > 12 or not isinstance(tree, tuple) or not tree:
+        return []
+    k = tree[0]
+    if k == "const" or k == "named" or k == "promoted":
+        return []
+    if k == "call":
+        c = tree[1] or ""
+        if re.search(r"Match.*::(start|end)$|<impl str>::(len)$|String::len$", c):
+            return []
+        if re.search(r"<impl str>::(find|rfind)$", c):
+            return []
+        if re.search(r"Option::<T>::(map_or|map|unwrap_or|unwrap|unwrap_or_default)$", c) and len(tree) > 2 and tree[2]:
+            # the option's payload decides; the default and the adjusting closure (`|x| x + 1` after a one-byte pattern) are accepted
+            return _unsafe_bounds(g, tree[2][0], SAFE, seen, depth + 1)
+        return [c.split("::")[-1] + "()"]
+    if k == "agg":
+        out = []
+        for x in tree[2]:
+            out += _unsafe_bounds(g, x, SAFE, seen, depth + 1)
+        return out
+    if k == "phi":
+        out = []
+        for x in tree[1]:
+            out += _unsafe_bounds(g, x, SAFE, seen, depth + 1)
+        return out
+    if k == "proj":
+        return _unsafe_bounds(g, tree[1], SAFE, seen, depth + 1)
+    if k in ("bin",):
+        return _unsafe_bounds(g, tree[2], SAFE, seen, depth + 1) + _unsafe_bounds(g, tree[3], SAFE, seen, depth + 1)
+    if k in ("cast", "un"):
+        return _unsafe_bounds(g, tree[-1], SAFE, seen, depth + 1)
+    if k == "local":
+        l = tree[1]
+        if l in seen:
+            return []
+        seen.add(l)
+        if 1 <= l <= g.nargs:
+            return ["parameter " + (g.name(l) or str(l))]
+        out = []
+        for d in g.defs.get(l, []):
+            if d[0] == "s":
+                rv = g.blocks[d[1]]["s"][d[2]][2]
+                tmp = ["m", [l, []]]
+                # describe the right-hand side of this particular definition
+                out += _unsafe_bounds(g, g.describe_rvalue(rv, 8) if hasattr(g, "describe_rvalue") else _rv_tree(g, rv), SAFE, seen, depth + 1)
+            else:
+                t = g.blocks[d[1]]["t"]
+                out += _unsafe_bounds(g, ("call", t.get("callee"), tuple(g.describe(a, 6) for a in t["args"])), SAFE, seen, depth + 1)
+        return out
+    if k == "arg":
+        return ["parameter " + str(tree[2] if len(tree) > 2 else tree[1])]
+    return []
+
+
+def _rv_tree(g, rv):
+    if rv[0] == "use":
+        return g.describe(rv[1], 8)
+    if rv[0] == "bin":
+        return ("bin", rv[1], g.describe(rv[2], 8), g.describe(rv[3], 8))
+    if rv[0] in ("cast",):
+        return ("cast", g.describe(rv[2], 8))
+    if rv[0] == "agg":
+        return ("agg", rv[1], tuple(g.describe(o, 8) for o in rv[2]))
+    if rv[0] in ("ref", "ptr"):
+        return g.describe(["c", rv[2]], 8)
+    return ("const", None)
 
 
 def run(world, tier, info, only=None):
@@ -79,6 +151,60 @@ def run(world, tier, info, only=None):
             ck.ob("R3", "parses-the-copy:%s" % pp.split("::")[0], via_copy and direct[0] != ("arg", 1), site(s, t["l"]),
                   "the buffer handed to the generated parser is the owned, newline-terminated copy" if via_copy and direct[0] != ("arg", 1) else
                   "the generated parser is given the caller's input itself (%s)" % flow.fmt_path(direct, f))
+    # ---------------- R4 no panicking string slice on the parse path takes a computed byte offset -------------------------------
+    from mirlib import CallGraph
+    cg = CallGraph(w)
+    SAFE = re.compile(r"regex::.*Match.*::(start|end)$|core::str::<impl str>::(find|rfind|len|char_indices|rmatch_indices|match_indices)$|"
+                      r"alloc::string::String::len$|core::option::Option::<T>::(map_or|map|unwrap_or|unwrap)$|Iterator::(next|last)$")
+    n4 = 0
+    for crate_prefix, root in (("veryl_parser", "veryl_parser::parser::Parser::parse"), ("veryl_migrator", "veryl_migrator::parser::Parser::parse")):
+        if root not in w.fns:
+            continue
+        reach = set(cg.reachable([root]))
+        # error conversion runs inside Parser::parse through `?` / Into, which the call graph does not always connect: take the
+        # modules the property anchors in whole
+        reach |= {q for q in w.fns if re.match(r"^<?%s::(parser_error|parser|veryl_grammar|veryl_token)::" % crate_prefix, q)}
+        for p in sorted(reach):
+            sm = w.fns.get(p)
+            if not sm or sm.get("alias_of") or "::generated::" in p or not (p.startswith(crate_prefix) or p.startswith("<" + crate_prefix)):
+                continue
+            if not any(re.search(r"Index<.*> for str>::index$|String as core::ops::index::Index<.*>>::index$", c["c"] or "") for c in sm["calls"]):
+                continue
+            g = Fn(w.mir(p))
+            k = 0
+            for bi, t in g.calls(r"Index<.*> for str>::index$|String as core::ops::index::Index<.*>>::index$"):
+                n4 += 1
+                k += 1
+                bad = sorted(set(_unsafe_bounds(g, g.describe(t["args"][1], 8), SAFE, set(), 0)))
+                ok = not bad
+                ck.ob("R4", "slice-at-char-boundary:%s@%d" % ("::".join(p.split("::")[-2:]), k), ok, site(sm, t["l"]),
+                      "the slice bounds come from searches / regex matches / lengths of the same text (char boundaries)" if ok else
+                      "a `&text[a..b]` on the parse path takes a bound from %s: an offset that is not a char boundary of this text (multi-byte input) "
+                      "panics inside Parser::parse; use str::get" % bad)
+    ck.floor("R4", "panicking string slices on the parse paths (hand-written code)", n4, 3)
+    # ---------------- R5 the diagnostic's span is the scanner's location, unchanged ---------------------------------------------
+    for crate in ("veryl_parser", "veryl_migrator"):
+        cands = [q for q in w.fns if q.startswith(crate + "::parser_error::") and re.search(r"From<.*Location> for miette::.*SourceSpan>::from$", q)]
+        for q in cands:
+            g = Fn(w.mir(q))
+            news = g.calls(r"SourceSpan::new$")
+            okn = len(news) == 1
+            detail = "one SourceSpan::new"
+            if okn:
+                t = news[0][1]
+                d0 = repr(g.describe(t["args"][0], 10))
+                d1 = g.describe(t["args"][1], 10)
+                off_ok = "start" in d0 and not re.search(r"'(Add|Sub|Mul)'", d0)
+                len_ok = isinstance(d1, tuple) and d1[0] == "call" and (d1[1] or "").endswith("Location::len") and "bin" not in repr(d1)[:12]
+                pv = {x[1] for x in g.prov(t["args"][1], depth=8) if x[0] == "call"}
+                len_ok = len_ok and all((c or "").endswith("Location::len") for c in pv)
+                okn = off_ok and len_ok
+                detail = "offset = location.start, length = location.len() (found %s / %s)" % (d0[:80], repr(d1)[:80])
+            ck.ob("R5", "span-is-scanner-location:" + crate, okn, site(w.fns[q]),
+                  "the miette span is exactly the scanner's (start, len): " + detail if okn else
+                  "the span handed to the diagnostic is not the scanner's location unchanged (%s): widened or shifted spans can leave the input" % detail)
+        if not cands and crate == "veryl_parser":
+            ck.missing("R5", crate + "::parser_error From<Location> for SourceSpan")
     ck.analysed = {"drivers": drivers, "entries": entries}
     return ck.finish(info)
 
